@@ -173,7 +173,7 @@ def tasks(tier):
     for provider in ("attribute", "property", "model", "async"):
         for lo in range(0, len(d2), 16):
             out.append({"kind": "expr", "depth": 2, "style": "symbol", "lo": lo, "hi": min(len(d2), lo + 16), "provider": provider,
-                        "vkind": "bool", "quick": quick})
+                        "vkind": "int" if provider == "async" else "bool", "quick": quick})
     out.append({"kind": "reject"})
     return out
 
